@@ -64,7 +64,7 @@ nwrap_ctx = dict(cls='next_receiver_wrapper', members=['op_'], pre=[
 J = lambda name, **kw: dict(file=H, sig=r'void ' + name + r'\b', within=[NS, CSND], ctx=join_ctx, **kw)
 
 SPEC = dict(
-    properties=['C13'],
+    properties=['C13', 'C04'],   # C04: the trigger / the source are told to stop by whoever finishes first, and by cleanup while the trigger is pending
     ctx=dict(),
     extracts={
         'cleanupReady_init': dict(file=H, kind='expr', sig=r'std::atomic<bool> cleanupReady_ = ([^;]*);'),
